@@ -29,6 +29,9 @@ from core.exact import fr, tok
 # >>> C20-multi (user-defined flat systems with several flat outputs: families/c20_multi.py)
 from families import c20_multi
 # <<< C20-multi
+# >>> C20-hist (call histories on kept objects; typed time stamps / long horizons: families/c20_hist.py)
+from families import c20_hist
+# <<< C20-hist
 
 TOL = Fraction(1, 10 ** 6)        # regime T (solve / lstsq); observed worst error ~1e-10
 NINTERIOR = 3
@@ -172,6 +175,9 @@ class C20(Family):
     # >>> C20-multi (user-defined flat systems with several flat outputs: families/c20_multi.py)
     extra_modules = extra_modules + ["CtrlVerif.Props.C20Multi"]   # several flat outputs, any flag lengths
     # <<< C20-multi
+    # >>> C20-hist (call histories on kept objects; typed time stamps / long horizons: families/c20_hist.py)
+    extra_modules = extra_modules + ["CtrlVerif.Props.C20Hist"]    # inverse laws along every call history
+    # <<< C20-hist
 
     def pre_build(self):
         import os
@@ -228,12 +234,32 @@ class C20(Family):
         "scipy.optimize.minimize / scipy.linalg.null_space (point_to_point with cost or constraints, "
         "multi-output part): not modelled, the returned trajectory is validated (end points, dynamics)"]
     # <<< C20-multi
+    # >>> C20-hist (call histories on kept objects; typed time stamps / long horizons: families/c20_hist.py)
+    rule = rule + (
+        "; history part: on a reachable SISO system a random program of 3..8 calls forward / reverse whose "
+        "arguments are objects the caller already holds (literals as float64 / int64 arrays or lists, or results "
+        "of earlier calls; the most recent object is re-used with probability 1/2) - every result is kept and "
+        "all objects are read back at the end; typed-time part: point_to_point / SystemTrajectory.eval with "
+        "integer horizons 1 .. 10^7 (basis rescaled to the horizon, horizon^order <= 2.5e8), the times given as "
+        "Python int, NumPy integer scalars / arrays (int8 .. uint64), tuples, ranges or floats, the boundary "
+        "data as float / int arrays or lists, 70 % of the long-horizon moves rest to rest between integer "
+        "equilibria, half of the cases followed by a second trajectory planned with the same objects")
+    assumptions = assumptions + [
+        "typed-time part: conditioning guard on the boundary matrix in the rescaled time t/T (cond <= 1e5) and "
+        "horizon^order <= 2.5e8 (the rows of the boundary matrix are scaled by T^-k; beyond ~1e14 numpy.linalg.lstsq "
+        "with rcond=None treats them as zero and point_to_point warns 'basis too small' - not generated)",
+        "history / typed-time parts: an object of the caller that a call writes to is reported as a violation "
+        "(the inverse laws / the end-point conditions are read on the objects the caller holds)"]
+    # <<< C20-hist
 
     def __init__(self):
         self._cache = {}
         # >>> C20-multi (user-defined flat systems with several flat outputs: families/c20_multi.py)
         self.multi = c20_multi.Multi()
         # <<< C20-multi
+        # >>> C20-hist (call histories on kept objects; typed time stamps / long horizons: families/c20_hist.py)
+        self.hist = c20_hist.Hist(self)
+        # <<< C20-hist
 
     # ---- generation -------------------------------------------------------
     def rq(self, rng):
@@ -335,6 +361,9 @@ class C20(Family):
         # >>> C20-multi (user-defined flat systems with several flat outputs: families/c20_multi.py)
         cases += self.multi.generate(rng, tier)
         # <<< C20-multi
+        # >>> C20-hist (call histories on kept objects; typed time stamps / long horizons: families/c20_hist.py)
+        cases += self.hist.generate(rng, tier)        # after the other streams: those are unchanged per seed
+        # <<< C20-hist
         return cases
 
     def corpus(self):
@@ -355,6 +384,9 @@ class C20(Family):
         # >>> C20-multi (user-defined flat systems with several flat outputs: families/c20_multi.py)
         ] + self.multi.corpus() + [
         # <<< C20-multi
+        # >>> C20-hist (call histories on kept objects; typed time stamps / long horizons: families/c20_hist.py)
+        ] + self.hist.corpus() + [
+        # <<< C20-hist
         ]
 
     # ---- execution ----------------------------------------------------------
@@ -368,6 +400,10 @@ class C20(Family):
         if case.get("kind") == "multi":
             return self.multi.line(case)
         # <<< C20-multi
+        # >>> C20-hist (call histories on kept objects; typed time stamps / long horizons: families/c20_hist.py)
+        if case.get("kind") in ("hist", "tt"):
+            return self.hist.line(case)
+        # <<< C20-hist
         s = case["sys"]
         pre, full = self.sys_prefix(s)
         if not full:
@@ -389,6 +425,10 @@ class C20(Family):
         if case.get("kind") == "multi":
             return self.multi.impl(case)
         # <<< C20-multi
+        # >>> C20-hist (call histories on kept objects; typed time stamps / long horizons: families/c20_hist.py)
+        if case.get("kind") in ("hist", "tt"):
+            return self.hist.impl(case)
+        # <<< C20-hist
         s = case["sys"]
         n = s["n"]
         out = {}
@@ -475,6 +515,10 @@ class C20(Family):
         if case.get("kind") == "multi":
             return self.multi.parse_model(case, out)
         # <<< C20-multi
+        # >>> C20-hist (call histories on kept objects; typed time stamps / long horizons: families/c20_hist.py)
+        if case.get("kind") in ("hist", "tt"):
+            return self.hist.parse_model(case, out)
+        # <<< C20-hist
         s = case["sys"]
         n = s["n"]
         if out.startswith("err "):
@@ -530,6 +574,10 @@ class C20(Family):
         if case.get("kind") == "multi":
             return self.multi.compare(case, impl, model)
         # <<< C20-multi
+        # >>> C20-hist (call histories on kept objects; typed time stamps / long horizons: families/c20_hist.py)
+        if case.get("kind") in ("hist", "tt"):
+            return self.hist.compare(case, impl, model)
+        # <<< C20-hist
         s = case["sys"]
         n = s["n"]
         if "err" in model:
@@ -660,6 +708,10 @@ class C20(Family):
         if case.get("kind") == "multi":
             return self.multi.nontrivial(case, model)
         # <<< C20-multi
+        # >>> C20-hist (call histories on kept objects; typed time stamps / long horizons: families/c20_hist.py)
+        if case.get("kind") in ("hist", "tt"):
+            return self.hist.nontrivial(case, model)
+        # <<< C20-hist
         s = case["sys"]
         if "err" in model or s["n"] < 2:
             return False
@@ -672,6 +724,10 @@ class C20(Family):
         if case.get("kind") == "multi":
             return self.multi.stats(case, impl, model)
         # <<< C20-multi
+        # >>> C20-hist (call histories on kept objects; typed time stamps / long horizons: families/c20_hist.py)
+        if case.get("kind") in ("hist", "tt"):
+            return self.hist.stats(case, impl, model)
+        # <<< C20-hist
         s = case["sys"]
         st = {"order": s["n"], "outcome": ("err:" + model["err"]) if "err" in model else "ok"}
         if "err" in model and "err" in impl:
@@ -692,6 +748,11 @@ class C20(Family):
             yield from self.multi.shrink(case)
             return
         # <<< C20-multi
+        # >>> C20-hist (call histories on kept objects; typed time stamps / long horizons: families/c20_hist.py)
+        if case.get("kind") in ("hist", "tt"):
+            yield from self.hist.shrink(case)
+            return
+        # <<< C20-hist
         if case.get("p2p"):
             c = dict(case)
             c["p2p"] = None
@@ -736,6 +797,10 @@ class C20(Family):
         if case.get("kind") == "multi":
             return self.multi.search(rng, case, tier)
         # <<< C20-multi
+        # >>> C20-hist (call histories on kept objects; typed time stamps / long horizons: families/c20_hist.py)
+        if case.get("kind") in ("hist", "tt"):
+            return self.hist.search(rng, case, tier)
+        # <<< C20-hist
         return [self.gen_case(rng, tier) for _ in range(200)]
 
 
